@@ -36,6 +36,7 @@ inductive SErr where
   | stop
   | badEdges
   | noData
+  | genome
   deriving DecidableEq, Repr
 
 /-- `mean(stream)`: `t = sum(sum_and_n(chunk) …)`, then `t[:-1] / t[-1]`. On a stream without chunks Python's `sum`
@@ -635,6 +636,22 @@ def streamMask (sizes : List Nat) (cs : List (List C10.Iv)) : Option (List Nat) 
 /-- `compute(np.sum(streamed.get_pileup()))`: the per-chromosome sums added up -/
 def streamPileupSum (sizes : List Nat) (cs : List (List C10.Iv)) : Option Nat :=
   (chromBuffers sizes.length cs).map (fun bufs => ((List.zipWith pileup1 sizes bufs).map List.sum).sum)
+
+/-- `compute(streamed.get_pileup())` seen as the dict chromosome -> array (`pileup_data`): the per-chromosome
+pile-ups in genome order -/
+def streamPileupData (sizes : List Nat) (cs : List (List C10.Iv)) : Option (List (List Nat)) :=
+  (chromBuffers sizes.length cs).map (fun bufs => List.zipWith pileup1 sizes bufs)
+
+/-- `compute(np.histogram(streamed.get_pileup(), bins=edges))` (`pileup_hist`): one histogram per chromosome,
+added up by `histogram_reduce`; `.genome` when the entries do not follow the genome, `.stop` for a genome
+without chromosomes -/
+def streamPileupHist (edges : List Int) (sizes : List Nat) (cs : List (List C10.Iv)) : Except SErr (List Nat × List Int) :=
+  match chromBuffers sizes.length cs with
+  | none => .error .genome
+  | some bufs =>
+    match histogramReduce ((List.zipWith pileup1 sizes bufs).map (fun d => (histogram edges (d.map Int.ofNat), edges))) with
+    | some r => .ok r
+    | none => .error .stop
 
 /-- `compute(streamed_pileup[peaks])`: per chromosome, the slices of that chromosome's array under
 that chromosome's peaks (`extract_intervals` over `peaks.as_stream()`), concatenated in genome order;
